@@ -75,7 +75,7 @@ func arenaSlice(data []byte) []byte {
 	for i := 0; i < arenaSpare; i++ {
 		buf[len(data)+i] = 0xA5 ^ byte(i)
 	}
-	s := buf[:len(data) : len(data)+arenaSpare]
+	s := buf[: len(data) : len(data)+arenaSpare]
 	arena.used = append(arena.used, s)
 	return s
 }
